@@ -105,7 +105,8 @@ fn gen_spec_b(rng: &mut Rng, cfg: &GenCfg, depth: u32, budget: &mut u32, mult: u
             let init_size = rng.below(cfg.max_map + 1).min(cfg.max_value_nodes as u64 / mult.max(1)) as usize;
             let min_size = if rng.chance(1, 2) { Some(rng.below(init_size as u64 + 1) as usize) } else { None };
             let lo = init_size.max(1).max(min_size.map(|m| m + 1).unwrap_or(0));
-            let max_size = if rng.chance(1, 2) { Some(lo + rng.below(3) as usize) } else { None };
+            // now and then a bound that only says "effectively unbounded"
+            let max_size = if rng.chance(1, 2) { Some(lo + rng.below(3) as usize) } else if rng.chance(1, 8) { Some(*rng.pick(&[1usize << 62, usize::MAX / 2, usize::MAX - 1])) } else { None };
             spec::Node::AnonMap { value_type: Box::new(gen_spec_b(rng, cfg, depth + 1, budget, mult * (init_size.max(1) as u64))), init_size, min_size, max_size }
         }
         10 => {
@@ -179,7 +180,8 @@ fn gen_value_b(rng: &mut Rng, s: &spec::Node, cfg: &GenCfg, budget: &mut u32) ->
         spec::Node::Array { value_type, size } => value::Node::Array((0..*size).map(|_| Box::new(gen_value_b(rng, value_type, cfg, budget))).collect()),
         spec::Node::AnonMap { value_type, min_size, max_size, init_size } => {
             let lo = min_size.unwrap_or(0);
-            let hi = max_size.unwrap_or(lo.max(*init_size) + 3);
+            // (a declared bound may be astronomically large - "effectively unbounded": values stay small all the same)
+            let hi = max_size.unwrap_or(lo.max(*init_size) + 3).min(lo.max(*init_size) + 6);
             let n = if *budget == 0 { lo } else { match rng.below(4) { 0 => lo, 1 => hi, 2 => (*init_size).clamp(lo, hi), _ => lo + rng.below((hi - lo + 1) as u64) as usize } };
             let keys = gen_map_keys(rng, n);
             value::Node::AnonMap(keys.into_iter().map(|k| (k, Box::new(gen_value_b(rng, value_type, cfg, budget)))).collect())
@@ -284,7 +286,7 @@ fn corrupt_here(rng: &mut Rng, s: &spec::Node, v: &mut value::Node, cfg: &GenCfg
                         while m.len() >= *mn { let k = ks.pop().unwrap(); m.remove(&k); }
                         Some("map-below-min")
                     }
-                    (_, Some(mx), _) => {
+                    (_, Some(mx), _) if *mx < 64 => {
                         let mut k = 0usize;
                         while m.len() <= *mx { while m.contains_key(&k) { k += 1; } m.insert(k, Box::new(gen_value(rng, value_type, cfg))); }
                         Some("map-above-max")
